@@ -76,4 +76,33 @@ Proof.
   exists (firstn k (run_cfg scfg ops)). split; [|split; assumption].
   exists (skipn k (run_cfg scfg ops)). symmetry. apply firstn_skipn.
 Qed.
+(* class-wise reading of the property's last sentence, for any two handlers that ran, the first of them
+   earlier: nothing but attribute handlers runs before an attribute handler (attributes are set before
+   any filter or formatter runs), and once a sink has run no attribute handler, filter or formatter
+   runs any more (formatting precedes every sink) *)
+Lemma sorted_pairwise : forall l l1 a l2 b l3,
+  sorted l -> l = l1 ++ a :: l2 ++ b :: l3 -> rank (fst a) <= rank (fst b).
+Proof.
+  intros l l1 a l2 b l3 Hl ->. unfold sorted in Hl.
+  induction l1 as [|x l1 IH]; cbn [app] in Hl.
+  - apply StronglySorted_inv in Hl. destruct Hl as [_ Hall].
+    rewrite Forall_forall in Hall. apply Hall. apply in_or_app. right. left. reflexivity.
+  - apply StronglySorted_inv in Hl. destruct Hl as [Hl _]. exact (IH Hl).
+Qed.
+
+Corollary attributes_first_formatting_before_sinks ops leaf_of st m :
+  exists pre, (exists rest, run_cfg scfg ops = pre ++ rest)
+    /\ map PP.ev_oid (P.res_events (P.run pcfg (to_handlers leaf_of (run_cfg scfg ops)) st m)) = map snd pre
+    /\ forall l1 a l2 b l3, pre = l1 ++ a :: l2 ++ b :: l3 ->
+         (fst b = Attr -> fst a = Attr)
+         /\ (fst b = Filt -> fst a = Attr \/ fst a = Filt)
+         /\ (fst b = Fmt -> fst a = Attr \/ fst a = Filt \/ fst a = Fmt)
+         /\ (fst a = Snk -> fst b = Snk \/ fst b = Pipe \/ fst b = Gen).
+Proof.
+  destruct (execution_follows_class_order ops leaf_of st m) as (pre & Hpre & Hev & Hsorted).
+  exists pre. split; [exact Hpre|]. split; [exact Hev|].
+  intros l1 a l2 b l3 E. pose proof (sorted_pairwise pre l1 a l2 b l3 Hsorted E) as Hr.
+  destruct a as [ca ia], b as [cb ib]. cbn [fst] in *.
+  destruct ca, cb; cbn [rank] in Hr; try lia; repeat split; intros Hc; try discriminate Hc; auto.
+Qed.
 End Exec.
